@@ -21,14 +21,28 @@ enum { DoF = G::DoF, Dim = G::Dim, Rep = G::RepSize };
     std::vector<G> v{X, Y}, w{Z.compose(X), Z.compose(Y)}; \
     G m = manif::FN(v, manif::Constants<Sym>::eps, 1); G n = manif::FN(w, manif::Constants<Sym>::eps, 1); \
     out("lhs", n.coeffs()); out("rhs", Z.compose(m).coeffs()); }
+#ifdef VS_NATIVE
+// native only (bounded stand-in for the convergence clauses): K points within a geodesic ball of radius r around a
+// centre exp(c); outputs the stationarity residual  | mean_i log(m^-1 X_i) |  and the norm deviation of the result
+#define VS_STAT(NAME, FN) \
+  SCENARIO(NAME "_stationarity") { \
+    T c = sym_tangent<T>("c"); G C0 = c.exp(); std::vector<G> v; \
+    for (int k = 0; k < 6; ++k) { T d; for (int i = 0; i < DoF; ++i) d.coeffs()(i) = mk_var("d" + std::to_string(k) + "_" + std::to_string(i)); v.push_back(C0.rplus(d)); } \
+    G m = manif::FN(v); \
+    T r = T::Zero(); for (size_t k = 0; k < v.size(); ++k) r = r + v[k].rminus(m); \
+    r = r * (1.0 / v.size()); \
+    out("residual", r.coeffs()); out("mean", m.coeffs()); }
+#else
+#define VS_STAT(NAME, FN)
+#endif
 // one routine per translation unit (-DVS_ROUTINE=n): a routine that cannot be instantiated is reported by name
 #if VS_ROUTINE == 0
-VS_AVG("biinvariant", average_biinvariant)
+VS_AVG("biinvariant", average_biinvariant) VS_STAT("biinvariant", average_biinvariant)
 #elif VS_ROUTINE == 1
 VS_AVG("weighted", average)
 #elif VS_ROUTINE == 2
-VS_AVG("frechet_left", average_frechet_left)
+VS_AVG("frechet_left", average_frechet_left) VS_STAT("frechet_left", average_frechet_left)
 #else
-VS_AVG("frechet_right", average_frechet_right)
+VS_AVG("frechet_right", average_frechet_right) VS_STAT("frechet_right", average_frechet_right)
 #endif
 VS_MAIN
